@@ -1,6 +1,11 @@
 #!/venv/bin/python
-"""Render the latest rehearsal result of every (change, property) pair found in work/rehearsal_*.json as markdown."""
-import glob, json, os
+"""Render the latest rehearsal result of every (change, property) pair found in work/rehearsal_*.json as markdown.
+
+  tools/rehearsal_table.py            full table on stdout
+  tools/rehearsal_table.py --design   rewrite the block between the REHEARSAL-TABLE markers of DESIGN.md (compact) and
+                                      notes/rehearsal_table.md (full)
+"""
+import glob, json, os, sys
 ROOT = os.path.dirname(os.path.dirname(os.path.abspath(__file__)))
 latest = {}
 for f in sorted(glob.glob(os.path.join(ROOT, "work", "rehearsal_*.json")), key=os.path.getmtime):
@@ -11,13 +16,41 @@ for d in sorted(os.listdir(os.path.join(ROOT, "seeded"))):
     m = os.path.join(ROOT, "seeded", d, "meta.json")
     if os.path.exists(m):
         metas["seeded/" + d] = json.load(open(m))
-print("| change | property | what it is / what it needs | result of `./check` |")
-print("|---|---|---|---|")
-for (label, pid), kind in sorted(latest.items(), key=lambda kv: (kv[0][1], kv[0][0])):
-    m = metas.get(label, {})
-    what = (m.get("summary", "") + (" — needs: " + m["needs"] if m.get("needs") else "")).replace("|", "/").replace("\n", " ")
-    if label.startswith("revert"):
-        what = "re-introduces the defect repaired by that `fix:` commit"
-    res = {"caught": "VIOLATION with a concrete failing input", "caught-no-input": "VIOLATION … no-failing-input-found (broken proof/tie named in the replay)",
-           "MISSED": "**missed**"}.get(kind, kind)
-    print("| %s | %s | %s | %s |" % (label, pid, what[:260], res))
+RES = {"caught": "input", "caught-no-input": "no input", "MISSED": "**missed**"}
+CONFLICT = ("`git revert` conflicts with a later `fix:` commit on the same lines (4c76974 is superseded by 80b2308, 9cb1aff by b5fcd5e, "
+            "cf0d89d is the base of 448cee7); d4325f2 and 46473b8 are covered by the hand-written `seeded/fixrev-*` patches")
+
+
+def rows(width):
+    out = []
+    for (label, pid), kind in sorted(latest.items(), key=lambda kv: (kv[0][1], kv[0][0])):
+        m = metas.get(label, {}) or metas.get("seeded/" + label.split("/")[0], {})
+        what = (m.get("summary", "") + (" — needs: " + m["needs"] if m.get("needs") else "")).replace("|", "/").replace("\n", " ")
+        if label.startswith("revert"):
+            what = "re-introduces the defect repaired by that `fix:` commit"
+        res = RES.get(kind, "not applicable: " + CONFLICT if kind == "prepare-failed" else kind)
+        if width and len(what) > width:
+            what = what[:width].rsplit(" ", 1)[0] + " …"
+        out.append("| %s | %s | %s | %s |" % (label, pid, what, res))
+    return out
+
+
+def table(width):
+    n = {}
+    for k in latest.values():
+        n[k] = n.get(k, 0) + 1
+    head = ["%d (change, property) pairs: %d caught with a concrete failing input, %d caught as no-failing-input-found, %d missed, %d not applicable." % (
+        len(latest), n.get("caught", 0), n.get("caught-no-input", 0), n.get("MISSED", 0), n.get("prepare-failed", 0)), "",
+        "| change | property | what it is / what it needs | result of `./check` |", "|---|---|---|---|"]
+    return "\n".join(head + rows(width)) + "\n"
+
+
+if "--design" in sys.argv:
+    p = os.path.join(ROOT, "DESIGN.md")
+    s = open(p).read()
+    a = s.index("<!-- REHEARSAL-TABLE-BEGIN -->") + len("<!-- REHEARSAL-TABLE-BEGIN -->\n")
+    b = s.index("<!-- REHEARSAL-TABLE-END -->")
+    open(p, "w").write(s[:a] + table(150) + s[b:])
+    open(os.path.join(ROOT, "notes", "rehearsal_table.md"), "w").write("# Mutation rehearsal: every seeded change and fix revert, full descriptions\n\n" + table(0))
+else:
+    print(table(0))
